@@ -33,8 +33,11 @@ type stopInfo struct {
 	cause    string
 	atStop   map[string]string // retained keys at the end of the stop block: key -> value
 	channel  string
+	client   string
 	stops    int
 	deleted  bool
+	lastRT   time.Time     // removal time stored by the provider, as last seen
+	minUnb   time.Duration // smallest unbonding period in force at any (repeated) stop of this consumer
 }
 
 // monC11: stopped consumers get no updates and are removed after the unbonding period.
@@ -89,8 +92,10 @@ func (m *monC11) PostBegin(ctx sdk.Context) {
 			w.Eval("C11")
 			w.Event("C11", "removals")
 			w.Case("C11", fmt.Sprintf("removed cause=%s stops=%s offset=%s", si.cause, bucket(si.stops), offsetClass(now.Sub(si.deadline))))
-			if now.Before(si.deadline) {
-				w.Violation("C11", "removed-before-unbonding-period-elapsed", map[string]any{"consumer": id, "stopped": si.stopTime.String(), "deadline": si.deadline.String(), "removed": now.String()})
+			// every (repeated) stop schedules a removal one unbonding period - as in force at that stop - later; the earliest
+			// of these is due first. None of them is earlier than the first stop plus the smallest of those periods.
+			if now.Before(si.deadline) || now.Before(si.stopTime.Add(si.minUnb)) {
+				w.Violation("C11", "removed-before-unbonding-period-elapsed", map[string]any{"consumer": id, "stopped": si.stopTime.String(), "deadline": si.deadline.String(), "removed": now.String(), "unbonding": si.minUnb.String()})
 			}
 			if snap == nil {
 				snap = m.snap(ctx)
@@ -112,7 +117,12 @@ func (m *monC11) PostBegin(ctx sdk.Context) {
 			}
 			if si.channel != "" {
 				if ch, found := w.P.PApp.IBCKeeper.ChannelKeeper.GetChannel(ctx, ccv.ProviderPortID, si.channel); found && ch.State != channeltypes.CLOSED {
-					w.Violation("C11", "channel-not-closed-after-removal", map[string]any{"consumer": id, "channel": si.channel, "state": ch.State.String()})
+					// IBC core refuses to close a channel whose light client is expired or frozen; such a channel is dead anyway
+					if st := clientStatus(w.P, si.client); si.client != "" && st != "Active" {
+						w.Event("C11", "channel-left-open-at-removal-because-client-is-"+st)
+					} else {
+						w.Violation("C11", "channel-not-closed-after-removal", map[string]any{"consumer": id, "channel": si.channel, "state": ch.State.String(), "client": si.client})
+					}
 				}
 			}
 			w.Sample("C11", map[string]any{"consumer": id, "cause": si.cause, "stopped": si.stopTime.String(), "removed": now.String(), "kept_keys": len(left)})
@@ -164,18 +174,55 @@ func (m *monC11) PostEnd(ctx sdk.Context) {
 				}
 			}
 			si.channel, _ = pk.GetConsumerIdToChannelId(ctx, id)
+			si.client, _ = pk.GetConsumerClientId(ctx, id)
 			m.stopped[id] = si
 			_ = prev
 			w.Event("C11", "stops")
-			if rt, err := pk.GetConsumerRemovalTime(ctx, id); err != nil || !rt.Equal(si.deadline) {
+			unbEnd, _ := w.P.PApp.StakingKeeper.UnbondingTime(ctx)
+			rt, err := pk.GetConsumerRemovalTime(ctx, id)
+			switch {
+			case err != nil:
+				w.Violation("C11", "removal-time-not-stop-plus-unbonding", map[string]any{"consumer": id, "error": err.Error()})
+				si.minUnb = m.unbonding
+			case rt.Equal(now.Add(m.unbonding)):
+				si.minUnb = m.unbonding
+			case rt.Equal(now.Add(unbEnd)) && si.cause == "send-failure":
+				// stopped by EndBlock after governance changed the unbonding period in this very block
+				si.minUnb, si.deadline = unbEnd, rt
+			default:
 				w.Violation("C11", "removal-time-not-stop-plus-unbonding", map[string]any{"consumer": id, "removal_time": rt.String(), "stop": now.String(), "unbonding": m.unbonding.String()})
+				si.minUnb = m.unbonding
 			}
+			si.lastRT = rt
 			si.atStop = map[string]string{}
 			for k, v := range consumerKeys(post, id) {
 				if c11Retained[k[0]] {
 					si.atStop[k] = string(v)
 				}
 			}
+		}
+		// a repeated stop (a further packet of the stopped consumer times out) re-schedules: the stored removal time moves to
+		// this block's time plus the unbonding period now in force, and the earlier schedule entry stays
+		if rt, err := pk.GetConsumerRemovalTime(ctx, id); err == nil && !rt.Equal(si.lastRT) && !si.stopTime.Equal(now) {
+			unbEnd, _ := w.P.PApp.StakingKeeper.UnbondingTime(ctx)
+			w.Eval("C11")
+			w.Event("C11", "removal-rescheduled-by-repeated-stop")
+			switch {
+			case rt.Equal(now.Add(m.unbonding)):
+				if m.unbonding < si.minUnb {
+					si.minUnb = m.unbonding
+				}
+			case rt.Equal(now.Add(unbEnd)):
+				if unbEnd < si.minUnb {
+					si.minUnb = unbEnd
+				}
+			default:
+				w.Violation("C11", "rescheduled-removal-time-not-block-time-plus-unbonding", map[string]any{"consumer": id, "removal_time": rt.String(), "time": now.String(), "unbonding": m.unbonding.String()})
+			}
+			if rt.Before(si.deadline) {
+				si.deadline = rt
+			}
+			si.lastRT = rt
 		}
 		// (1) no validator updates are computed or sent for a stopped consumer
 		w.Eval("C11")
